@@ -110,8 +110,9 @@ CHECKS = {
   "on txtar.Quote (it refuses exactly the non-empty data that lacks a final newline or is not valid UTF-8, never returns a wrong result instead; its result is newline-terminated and every line of it starts with '>'; loop invariant, termination) "
   "and the lemma that data whose every line starts with '>' contains no marker line, so a quoted body never needs quoting. "
   "txtar-c's walk function: a file is archived only if regular, not hidden (unless -a) and valid UTF-8; what is stored is the data NeedsQuote was asked about, quoted exactly when it needs quoting and only with -quote, and a quoted file is announced in the comment. "
-  "Unquote(Quote(data)) == data is checked by a BOUNDED stand-in only (generated bodies over {'>', LF, '-', ' ', 'x', CR}).",
-  "assumed: extern contracts for bytes.*, strings.TrimSpace, utf8.Valid (uninterpreted); Unquote (bytes.Replace / TrimPrefix) has no functional contract: bounded only; 'survives Format/Parse unchanged' rests on C03's stand-in; in txtar-c the relative file name is not specified (the final-newline normalisation is: at most one added newline), os/filepath.Walk is the library's",
+  "Unquote is under contract: it refuses exactly non-empty data that does not start with '>' or does not end in a newline, returns nil for empty data, and otherwise returns bytes.TrimPrefix(bytes.Replace(data, LF '>', LF, all), '>') of the caller's data (call-site obligations pin both calls' arguments and their order; the result is strictly shorter than the input). "
+  "That this composition is the inverse of Quote for all data, Unquote(Quote(data)) == data, is checked by a BOUNDED stand-in only (generated bodies over {'>', LF, '-', ' ', 'x', CR}).",
+  "assumed: extern contracts for bytes.*, strings.TrimSpace, utf8.Valid (uninterpreted); bytes.Replace's result is not modelled beyond freshness, length and its first byte, so the inverse law of Unquote is bounded only; 'survives Format/Parse unchanged' rests on C03's stand-in; in txtar-c the relative file name is not specified (the final-newline normalisation is: at most one added newline), os/filepath.Walk is the library's",
   "contract-based deductive verification: VCs over go/ssa with loop invariants and a lemma, call-site obligations and ghost bindings for txtar-c; z3/cvc5; counterexamples replayed with go test -overlay; labelled bounded stand-in for Unquote"),
  "C01": ("5 C01",
   "Verdict logic under contract: run executes a line only while no line has failed unless ContinueOnError and never after stop; a failing line without ContinueOnError reaches FailNow; run returns normally only if no line failed (a failure with ContinueOnError still ends in FailNow: no false pass); "
